@@ -86,6 +86,8 @@ def run(res, tier, only_case=None):
             counts = [int(x) for x in d["calls"].split("/")]
             faults = faults_for(counts, rng, tier)
             lines = ["W %d %s %s" % (comp, ops, f) for f in faults]
+            # the same faults with a caller that calls zck_clear_error() and retries when that succeeds
+            lines += ["Wc %d %s %s" % (comp, ops, f) for f in faults if f.startswith("write")]
             # double faults: a short write followed by another fault on the retry or later
             for _ in range(12 if tier == "quick" else 150):
                 k1 = rng.randrange(1, counts[1] + 1)
